@@ -94,6 +94,11 @@ def kfold_body(case, ctx):
         warnings.simplefilter("ignore")
         again = [(np.array(a), np.array(b)) for a, b in vd.BlockKFold(n_splits=n_splits, shuffle=case["shuffle"], balance=case["balance"],
                                                                     random_state=case["seed"], **kw).split(X)]
+    with warnings.catch_warnings():
+        warnings.simplefilter("ignore")
+        same_object = [(np.array(a), np.array(b)) for a, b in cv.split(X)]
+    ctx.check(len(same_object) == len(splits) and all(np.array_equal(a[1], b[1]) for a, b in zip(same_object, splits)),
+              "splitting twice with the same BlockKFold object (random_state=%r) gives different folds", case["seed"])
     ctx.check(len(splits) == n_splits, "BlockKFold yielded %d folds, n_splits=%d", len(splits), n_splits)
     ctx.check(cv.get_n_splits() == n_splits, "get_n_splits() != n_splits")
     n = X.shape[0]
@@ -224,7 +229,11 @@ def shuffle_body(case, ctx):
             ctx.nt(True)
             return
         raise Violation("test/train sizes %r/%r are impossible for %d blocks but were accepted: %r" % (case["test_size"], case["train_size"], occupied.size, res))
-    splits = [(np.array(a), np.array(b)) for a, b in vd.BlockShuffleSplit(**args, **kw).split(X)]
+    cv_obj = vd.BlockShuffleSplit(**args, **kw)
+    splits = [(np.array(a), np.array(b)) for a, b in cv_obj.split(X)]
+    same_object = [(np.array(a), np.array(b)) for a, b in cv_obj.split(X)]
+    ctx.check(len(same_object) == len(splits) and all(np.array_equal(a[1], b[1]) for a, b in zip(same_object, splits)),
+              "splitting twice with the same BlockShuffleSplit object (random_state=%r) gives different splits", case["seed"])
     again = [(np.array(a), np.array(b)) for a, b in vd.BlockShuffleSplit(**args, **kw).split(X)]
     ctx.check(len(splits) == case["n_splits"], "BlockShuffleSplit yielded %d splits, n_splits=%d", len(splits), case["n_splits"])
     n = X.shape[0]
